@@ -16,14 +16,14 @@ def _handler():
     return ombott.static_file(_BOX['name'], _BOX['root'], **kw)
 
 
-def serve_static(name, root, method='GET', headers=None, **kw):
+def serve_static(name, root, method='GET', headers=None, environ_extra=None, **kw):
     import ombott
     app = ombott.app
     if not _REG:
         app.route('/__verif_static', method=['GET', 'HEAD', 'POST'], callback=_handler, overwrite=True)
         _REG.append(1)
     _BOX.update(name=name, root=root, kw=kw)
-    env = make_environ(method, '/__verif_static', headers=headers or {})
+    env = make_environ(method, '/__verif_static', headers=headers or {}, extra=environ_extra or {})
     return call_app(app, env)
 
 
